@@ -12,6 +12,7 @@ open CoCo.Gen (InstrRow)
 structure StmtOK (N : Nat) (s : Stmt) : Prop where
   val : s.operand.value.Good N
   addr : s.pkg.address.Good 0            -- no label in a preset address: a 16-bit magnitude
+  codes : s.pkg.opCode ≠ .pyNone ∧ s.pkg.postByte ≠ .pyNone   -- `hex_len()` is defined on both (`fitWidth`)
   choices : ChoicesOK N s.pkg
   rel : s.operand.kind = .relative →
     (∃ b, s.pkg.additional.int? = some b) ∧ (s.row.isShortBranch = false → 1 ≤ s.pkg.size)
@@ -23,13 +24,14 @@ structure StmtOK (N : Nat) (s : Stmt) : Prop where
 
 theorem settle_ok {N : Nat} {s : Stmt} (hs : StmtOK N s) {c0 c1 : Nat} (hch : s.pkg.choices = [c0, c1])
     (e hint c : Nat) (hc : c = c0 ∨ c = c1) : ∃ s', settle s e hint c = some s' ∧ StmtOK N s' := by
-  rcases hs.choices with h0 | ⟨d0, d1, hd, hd0, hd1, ⟨raw, hraw, hrawlt⟩, hadd⟩
+  rcases hs.choices with h0 | ⟨d0, d1, hd, hd0, hd1, ⟨raw, hraw, hrawlt, _⟩, hadd⟩
   · rw [hch] at h0; cases h0
   · rw [hch] at hd
     simp only [List.cons.injEq, and_true] at hd
     obtain ⟨rfl, rfl⟩ := hd
     have hclt : c < 256 := by rcases hc with rfl | rfl <;> assumption
     obtain ⟨pb, hpb⟩ := numV_ok (a := raw ||| c) (by have := or_lt_256 hrawlt hclt; omega)
+    have hlen := numV_hexLen hpb (or_lt_256 hrawlt hclt)
     obtain ⟨hh, mm, rfl, _⟩ := numV_eq hpb
     have hset : settle s e hint c = some { s with
         pkg := { s.pkg with size := s.pkg.size + e, maxSize := s.pkg.size + e,
@@ -37,7 +39,7 @@ theorem settle_ok {N : Nat} {s : Stmt} (hs : StmtOK N s) {c0 c1 : Nat} (hch : s.
         pcrHint := hint, fixedSize := true } := by
       simp [settle, orPost, hraw, hpb]
     refine ⟨_, hset, ?_⟩
-    refine ⟨hs.val, hs.addr, Or.inr ⟨c0, c1, hch, hd0, hd1, ⟨raw ||| c, rfl, or_lt_256 hrawlt hclt⟩, hadd⟩, ?_, hs.needs, ?_⟩
+    refine ⟨hs.val, hs.addr, ⟨hs.codes.1, nofun⟩, Or.inr ⟨c0, c1, hch, hd0, hd1, ⟨raw ||| c, rfl, or_lt_256 hrawlt hclt, hlen⟩, hadd⟩, ?_, hs.needs, ?_⟩
     · intro hk
       obtain ⟨h1, h2⟩ := hs.rel hk
       exact ⟨h1, fun hsb => by have := h2 hsb; show 1 ≤ s.pkg.size + e; omega⟩
@@ -65,7 +67,7 @@ theorem ite3 (P Q : Prop) [Decidable P] [Decidable Q] (a b c : Stmt) (R : Outcom
 /-- `determine_pcr_relative_sizes` on a good statement: no internal error, and the result is good -/
 theorem determine_good {N : Nat} {ss : List Stmt} (hlen : ss.length = N) (i : Nat) {s : Stmt} (hs : StmtOK N s) :
     determine ss i s ≠ .internal ∧ ∀ s', determine ss i s = .ok s' → StmtOK N s' := by
-  rcases hs.choices with h0 | ⟨d0, d1, hd, hd0, hd1, ⟨raw, hraw, hrawlt⟩, hgood, ⟨r, hr, hrlt⟩, _⟩
+  rcases hs.choices with h0 | ⟨d0, d1, hd, hd0, hd1, ⟨raw, hraw, hrawlt, _⟩, hgood, ⟨r, hr, hrlt⟩, _⟩
   · unfold determine
     rw [h0]
     exact ⟨by simp, fun s' h => by cases h⟩
@@ -257,34 +259,7 @@ theorem pcrLoop_good {N : Nat} : ∀ (fuel : Nat) (ss : List Stmt), ss.length = 
 
 /-! ### from the parser to `StmtOK` -/
 
-/-- a statement as the parser builds it: a row of the instruction table and an operand out of
-`Operand.create_from_str` for that row -/
-def Parsed (s : Stmt) : Prop := s.row ∈ Gen.instructions ∧ ∃ txt, createOperand txt s.row = .ok s.operand
-
-theorem parseLine_row {l : Str} {s : Stmt} (h : parseLine l = .ok (some s)) : s.row ∈ Gen.instructions := by
-  unfold parseLine at h
-  split at h
-  · cases h
-  · cases h
-  · cases h
-  · dsimp only at h
-    split at h
-    · cases h
-    · rename_i row hrow
-      have hmem : row ∈ Gen.instructions := List.mem_of_find?_eq_some hrow
-      repeat' split at h
-      all_goals first
-        | (cases h; done)
-        | (simp only [Outcome.ok.injEq, Option.some.injEq] at h; subst h; exact hmem)
-
-theorem parseLine_parsed {l : Str} {s : Stmt} (h : parseLine l = .ok (some s)) : Parsed s :=
-  ⟨parseLine_row h, parseLine_operand h⟩
-
-/-- every statement that enters the back end was built by the parser -/
-theorem expand_parsed {fs : Files} {lines : List Str} {parsed ss0 : List Stmt}
-    (hp : parseLines lines = .ok parsed) (he : expand fs 64 [] parsed = .ok ss0) : ∀ s ∈ ss0, Parsed s :=
-  expand_forall (P := Parsed) (fun _ _ h => parseLine_parsed h) fs 64 [] parsed ss0
-    (parseLines_forall (P := Parsed) (fun _ _ h => parseLine_parsed h) lines parsed hp) he
+-- `Parsed`, `parseLine_row`, `parseLine_parsed`, `expand_parsed`: see Lemmas/LayoutTrace.lean
 
 set_option maxRecDepth 100000 in
 /-- every long branch of the instruction table has a size (used for backward long branches) -/
@@ -340,7 +315,7 @@ theorem translateAll_good {N : Nat} (hN : 0 < N) : ∀ {a r : List Stmt}, transl
         · subst hs
           obtain ⟨hres, hrow⟩ := ha s (by simp)
           have hp := translateOperand_ok hN hres hrow hr
-          refine ⟨hres.good, hp.addr, hp.choices, hp.rel, hp.needs, ?_⟩
+          refine ⟨hres.good, hp.addr, hp.codes, hp.choices, hp.rel, hp.needs, ?_⟩
           intro hn _
           show (!p.needsRes && p.choices.isEmpty) = false
           rw [show p.needsRes = true from hn]; rfl
